@@ -5,11 +5,26 @@ import (
 	"encoding/json"
 	"os"
 	"strconv"
+	"sync/atomic"
+	"time"
 	"testing"
 )
 
 // Ev is one trace event / one observation.
 type Ev map[string]any
+
+// Real-time watchdogs guard operations that normally take microseconds. The limit is generous (a loaded machine must
+// not turn a slow call into a "hang"); once three calls have really hung the verdict is established and the remaining
+// ones use a short limit so that the run ends.
+var hangsSeen atomic.Int32
+
+func watchdogLimit() time.Duration {
+	if hangsSeen.Load() >= 3 {
+		return 2 * time.Second
+	}
+	return 20 * time.Second
+}
+func noteHang() { hangsSeen.Add(1) }
 
 func envOr(k, def string) string {
 	if v := os.Getenv(k); v != "" {
